@@ -23,7 +23,7 @@ func genC02(t *rapid.T) KeyCase {
 }
 
 func genC03(t *rapid.T) KeyCase {
-	d := genWorld(t, WorldOpts{Modes: allModes, MaxMappings: 2, Actions: stateActions, ActionProb: 60, Subs: 2, Twins: true})
+	d := genWorld(t, WorldOpts{Modes: allModes, MaxMappings: 2, Actions: append(append([]string{}, stateActions...), "panic"), ActionProb: 60, Subs: 2, Twins: true})
 	steps := genHistory(t, d, HistOpts{MaxLen: 50, StateBias: 35, BurstMax: 2, Repeats: true})
 	return KeyCase{D: d, Steps: steps, NoLogs: rapid.IntRange(0, 7).Draw(t, "nologs") > 0, Bystander: genBystander(t, d)}
 }
